@@ -89,6 +89,20 @@ def _relayout(m, k):
     return m
 
 
+def _narrow(a, xs):
+    """Content-determined element type of a numeric array argument: float64, or — when every value is exactly
+    representable there, so that the request is the same request — float32 / float16 (what a caller gets from a
+    pipetting table stored compactly).  The model sees the exact values."""
+    import zlib
+    k = zlib.crc32(("dtype" + repr(a)).encode()) % 6
+    with np.errstate(over="ignore", invalid="ignore"):
+        if k == 0 and all(math.isfinite(x) and float(np.float16(x)) == x for x in xs):
+            return np.float16
+        if k in (0, 1) and all(math.isfinite(x) and float(np.float32(x)) == x for x in xs):
+            return np.float32
+    return float
+
+
 def arr_num(a):
     if a[0] == "S":
         return fl(a[1])
@@ -96,11 +110,12 @@ def arr_num(a):
         xs = [fl(x) for x in a[1]]
         k = _layout(a)
         if k == 1 and xs:
-            return np.array(xs, dtype=float)
+            return np.array(xs, dtype=_narrow(a, xs))
         if k == 2 and xs:
             return np.array([y for x in xs for y in (x, -1.0)], dtype=float)[::2]
         return xs
-    m = np.array([fl(x) for x in a[3]], dtype=float).reshape((a[1], a[2]))
+    xs = [fl(x) for x in a[3]]
+    m = np.array(xs, dtype=_narrow(a, xs) if xs else float).reshape((a[1], a[2]))
     return _relayout(m, _layout(a)) if m.size else m
 
 
@@ -130,10 +145,15 @@ def tipsym(t):
     return v
 
 
-def tiparg(t):
+def tiparg(t, container=None):
     if t[0] == "single":
         return tipsym(t[1])
-    return [tipsym(x) for x in t[1]]
+    xs = [tipsym(x) for x in t[1]]
+    # a collection of tips may be any iterable: list or tuple (content-determined unless the caller asks)
+    import zlib
+    if container is None:
+        container = "tuple" if zlib.crc32(("tips" + repr(t)).encode()) % 3 == 0 else "list"
+    return tuple(xs) if container == "tuple" else xs
 
 
 def kwargs_of(kw: dict) -> dict:
@@ -245,7 +265,15 @@ def apply_op(labs, wl, op: dict):
         wl.dispense(labs[op["lab"]], arr_str(op["wells"]), arr_num(op["vols"]), label=op.get("label"),
                     compositions=comps_of(op.get("comps")), **kwargs_of(op.get("kw", {})))
     elif k == "transfer":
-        wl.transfer(labs[op["src"]], arr_str(op["src_wells"]), labs[op["dst"]], arr_str(op["dst_wells"]), arr_num(op["vols"]),
+        vols = arr_num(op["vols"])
+        if op.get("vols_dtype") and op["vols"][0] != "S":
+            # the generator asks for a compact element type: honoured when every value is exactly representable in it
+            dt = {"float16": np.float16, "float32": np.float32}[op["vols_dtype"]]
+            flat = [fl(x) for x in (op["vols"][1] if op["vols"][0] == "V" else op["vols"][3])]
+            with np.errstate(over="ignore", invalid="ignore"):
+                if flat and all(math.isfinite(x) and float(dt(x)) == x for x in flat):
+                    vols = np.asarray(vols, dtype=float).astype(dt)
+        wl.transfer(labs[op["src"]], arr_str(op["src_wells"]), labs[op["dst"]], arr_str(op["dst_wells"]), vols,
                     label=op.get("label"), wash_scheme=op.get("wash", 1), partition_by=op.get("partition_by", "auto"),
                     **kwargs_of(op.get("kw", {})))
     elif k == "distribute":
@@ -280,7 +308,26 @@ def apply_op(labs, wl, op: dict):
                                 fl(op["dst_end"]), volume=fl(op["vol"]), **kw)
     elif k in ("evo_aspirate", "evo_dispense"):
         vol = op["vol"]
-        vol = [fl(x) for x in vol] if isinstance(vol, list) else fl(vol)
+        if isinstance(vol, list):
+            xs = [fl(x) for x in vol]
+            # per-tip volumes are a LIST; its elements may be Python numbers or numpy scalars of any float width
+            # (what list(array) gives) — content-determined, narrow types only when every value is exact in them
+            dt = _narrow(("evovol", tuple(repr(x) for x in vol)), [float(x) for x in xs if isinstance(x, (int, float))]) \
+                if all(isinstance(x, (int, float)) and not isinstance(x, bool) for x in xs) and xs else float
+            import zlib as _z
+            if op.get("vol_dtype"):
+                dtf = {"float16": np.float16, "float32": np.float32}[op["vol_dtype"]]
+                with np.errstate(over="ignore", invalid="ignore"):
+                    if all(isinstance(x, (int, float)) and math.isfinite(x) and float(dtf(x)) == x for x in xs):
+                        dt = dtf
+            if dt is not float:
+                vol = [dt(x) for x in xs]
+            elif xs and all(isinstance(x, float) for x in xs) and _z.crc32(repr(vol).encode()) % 4 == 0:
+                vol = [np.float64(x) for x in xs]
+            else:
+                vol = xs
+        else:
+            vol = fl(vol)
         kw = dict(arm=op.get("arm", 0), label=op.get("label"))
         if k == "evo_dispense":
             kw["compositions"] = comps_of(op.get("comps"))
